@@ -1221,6 +1221,7 @@ func runC19(c *Ctx) {
 	c.r1922(x)
 	c.r1923(x)
 	c.r1924(x)
+	c.r1925(x)
 	// a bundle written onto one of its inputs: the input is truncated by the open before the lazy reader gets to it,
 	// so the output silently lacks that file — the ordering rule of C20 is a condition of "the library's output" too
 	c.alsoUnder(map[string]string{"R20.1": "R19.13"}, nil, func() { c.r201(x) })
@@ -3205,4 +3206,66 @@ func (c *Ctx) r2012(x *cliCtx) {
 				fmt.Sprintf("the file `<dst>%s`, to which main.minify renames an input that is overwritten and which it removes afterwards, is not compared with the files recorded in %s (found: %v, canonical key: %v): two tasks of one run can use the same file, one as its backup and one as its input or output, and a file is lost", suf, name, found, canonical))
 		}
 	}
+}
+
+// R19.25: the hidden-name test of the directory walk does not apply to the directory the user named.
+func (c *Ctx) r1925(x *cliCtx) {
+	const rule = "R19.25"
+	c.R.Rule(rule, "files and directories whose name starts with a dot are skipped by the recursive walk unless --all is given; a *file* named on the command line is taken whatever its name. The walk function of createTasks is also called for the root it was started on: `minify -r -o out/ .config` visited `.config` itself, found its name hidden, skipped the whole tree and exited with status 0 and no output. In the function literal that walks a directory, every condition that tests the hidden flag together with a leading '.' also compares the walked path (the literal's first parameter) with a variable captured from createTasks")
+	info := x.info
+	fd := c.fn(rule, x.pk, "createTasks")
+	if fd == nil {
+		return
+	}
+	n := 0
+	ast.Inspect(fd.Body, func(z ast.Node) bool {
+		lit, ok := z.(*ast.FuncLit)
+		if !ok || lit.Type.Params == nil || len(lit.Type.Params.List) == 0 || len(lit.Type.Params.List[0].Names) == 0 {
+			return true
+		}
+		path := info.Defs[lit.Type.Params.List[0].Names[0]]
+		ast.Inspect(lit.Body, func(q ast.Node) bool {
+			ifs, ok := q.(*ast.IfStmt)
+			if !ok {
+				return true
+			}
+			chars, _, _ := c.constsIn(x.pk, ifs.Cond)
+			usesHidden := false
+			ast.Inspect(ifs.Cond, func(w ast.Node) bool {
+				if id, ok := w.(*ast.Ident); ok && id.Name == "hidden" {
+					if v, ok := info.Uses[id].(*types.Var); ok && v.Parent() == x.pk.Types.Scope() {
+						usesHidden = true
+					}
+				}
+				return true
+			})
+			if !chars['.'] || !usesHidden {
+				return true
+			}
+			n++
+			good := false
+			ast.Inspect(ifs.Cond, func(w ast.Node) bool {
+				be, ok := w.(*ast.BinaryExpr)
+				if !ok || (be.Op != token.NEQ && be.Op != token.EQL) {
+					return true
+				}
+				for _, pair := range [][2]ast.Expr{{be.X, be.Y}, {be.Y, be.X}} {
+					a, ok1 := ast.Unparen(pair[0]).(*ast.Ident)
+					b, ok2 := ast.Unparen(pair[1]).(*ast.Ident)
+					if !ok1 || !ok2 || info.Uses[a] != path {
+						continue
+					}
+					if v, ok := info.Uses[b].(*types.Var); ok && v.Pos() < lit.Pos() && v.Parent() != x.pk.Types.Scope() {
+						good = true // captured from createTasks
+					}
+				}
+				return true
+			})
+			c.R.Check(good, rule, fmt.Sprintf("main.createTasks/hidden-name test of the walk#%d spares the directory that was named", n), c.pos(ifs), "the walked path is compared with a captured variable",
+				"the test for a hidden name is applied to every path the walk visits, the root included: `minify -r -o out/ .hid` writes nothing and exits with status 0")
+			return true
+		})
+		return true
+	})
+	c.R.Floor(rule, "hidden-name tests in the walk", n, 1)
 }
